@@ -85,9 +85,34 @@ def spec_kwaj_cases(ctx):
               dict(family="kwaj.spec", expect=digest(d), hdr=dict(comp=x, dataoff=off, length=l or 0, flags="0x%x" % flags, extra=ex, name=None),
                    nontrivial=True, plan=dict(method=x, parts=flags))
 
+def cross_block_and_wrap(ctx):
+    from vgen import szdd, kwaj, lz
+    rng = ctx.rng
+    cases = list(S.mszip_cross_block_cases(rng))
+    if ctx.tier == "quick": cases = cases[36:66]
+    for (label, cab, kw, plain) in cases:
+        yield [f"file f.kwj {kw.hex()}", "new kwaj", "open i0 f.kwj", "extract i0 h0 - out", "close i0 h0", "destroy i0"], \
+              dict(family="kwaj.mszip-cross-block.plan", label=label, expect=digest(plain), hdr={}, nontrivial=True)
+    RING = b"\x20" * 4096
+    for (label, pre, group, after, start) in S.lzss_wrap_group_cases(rng):
+        toks = []; pos = start
+        for t in pre + group + after:
+            if t[0] == "L": toks.append(t); pos = (pos + 1) % 4096
+            elif t[0] == "M": toks.append(("M", 1, t[2])); pos = (pos + t[2]) % 4096
+            else:
+                d = (pos - t[1]) % 4096 or 4096
+                toks.append(("M", d, t[2])); pos = (pos + t[2]) % 4096
+        plain = lz.expand(toks, RING)
+        variants = [("szdd", szdd.build(toks, False), "f.sz_")] if start == 4080 else \
+                   [("szdd", szdd.build(toks, True), "f.sz_"), ("kwaj", kwaj.build(2, szdd.lzss_encode(toks, 4078), length=len(plain)), "f.kwj")]
+        for kind, f, nm in variants:
+            yield [f"file {nm} {f.hex()}", f"new {kind}", f"open i0 {nm}", "extract i0 h0 - out", "close i0 h0", "destroy i0"], \
+                  dict(family=f"{kind}.wrap-group.plan", label=label, expect=digest(plain), hdr={}, nontrivial=True)
+
 def generate(ctx):
     yield from spec_lzss_cases(ctx)
     yield from spec_kwaj_cases(ctx)
+    yield from cross_block_and_wrap(ctx)
     yield from plan_cases(ctx)
 
 def plan_cases(ctx):
